@@ -52,10 +52,17 @@ var c14Pool = []c14Op{
 	{Name: "same-node-two-selections", Q: "{ a: n2 { owner { name } } b: n2 { owner { calc(x: 2) } } }"},
 	// one document whose plan-relevant part hangs on a variable value: a field of another service skipped or not
 	{Name: "skip-var-true", Q: "query ($h: Boolean!) { n2 { title owner { phone name @skip(if: $h) } } }", Vars: map[string]interface{}{"h": true}},
+	// operations that differ in their variable definitions only: the default the cached AST carries, the type a variable inside a custom scalar literal is declared with
+	{Name: "intro-default-Query", Q: "query T($n: String! = \"Query\") { __type(name: $n) { name } }"},
+	{Name: "intro-no-default", Q: "query T($n: String!) { __type(name: $n) { name } }"},
+	{Name: "scalar-literal-var-Int", Q: "query Q($x: Int) { when(at: {a: $x}) }", Vars: map[string]interface{}{"x": 1}},
+	{Name: "scalar-literal-var-String", Q: "query Q($x: String) { when(at: {a: $x}) }", Vars: map[string]interface{}{"x": "s"}},
+	// an operation that validates but that the planner rejects (a known finding of C02): the error is the answer every time
+	{Name: "planner-rejects", Q: "query { node(id: \"N1_1\") { ... @skip(if: true) { ... on N2 { title } } } }"},
 	{Name: "skip-var-false", Q: "query ($h: Boolean!) { n2 { title owner { phone name @skip(if: $h) } } }", Vars: map[string]interface{}{"h": false}},
 }
 
-const c14World = "W0+same-root-name-query-mutation+interface-value"
+const c14World = "W0+same-root-name-query-mutation+interface-value+root-custom-scalar"
 
 func (o c14Op) body() json.RawMessage {
 	m := map[string]interface{}{"query": o.Q}
@@ -199,8 +206,8 @@ func c14ConcHarness(cached *gwHarness, want map[string]string, c1, c2 []int, ttl
 func init() {
 	Specs["C14"] = &Spec{
 		ID: "C14",
-		Rule: "sequential: every request history of length <=3 (thorough 4) over an alphabet of 26 operations built to collide in the cache key (pairs differing only in operation type, name, variable type, variable default, variable value, " +
-			"fragment body, named fragment type condition, alias, selected operation of a two-operation document, explicit vs injected id, variable present vs omitted, introspection by variable with two values, @skip on a field of another service driven by a variable with both values, one entity looked up twice with different selections; one unrelated) plus `tick` (clock jumps past the TTL), for TTL in {0, 1s, 1h}; each history is replayed on a fresh caching gateway and on a plain twin under the virtual clock " +
+		Rule: "sequential: every request history of length <=3 (thorough 4) over an alphabet of 31 operations built to collide in the cache key (pairs differing only in operation type, name, variable type, variable default, variable value, " +
+			"fragment body, named fragment type condition, alias, selected operation of a two-operation document, explicit vs injected id, variable present vs omitted, introspection by variable with two values, @skip on a field of another service driven by a variable with both values, one entity looked up twice with different selections, an operation the planner rejects, variable definitions that differ in a default or in the type of a variable used inside a custom scalar literal; one unrelated) plus `tick` (clock jumps past the TTL), for TTL in {0, 1s, 1h}; each history is replayed on a fresh caching gateway and on a plain twin under the virtual clock " +
 			"and every answer compared. concurrent: two clients with 1-2 requests each from the pool on one caching gateway (also with a clock jump past the TTL before the second client's request, so that the first one's request straddles the expiry), every schedule with <=1 (thorough 2) preemption at client granularity (RWMutex operations visible), each answer compared with the plain twin's; " +
 			"non-trivial = history with a repeated or colliding key",
 		Assumptions: []string{"virtual clock owned by vrt (1ms passes between requests)", "subscriptions interleaved with queries are exercised by the C17/C18 harness, not here",
